@@ -40,10 +40,29 @@ type Chooser interface {
 func (s *Sched) choose(kind Kind, n int, preemptive bool, from *Thread) int {
 	s.curKey = s.StateKey(kind, from)
 	k := s.chooser.Choose(kind, n, preemptive)
+	if s.abandoned {
+		if (kind == KOp || kind == KEnv || kind == KSelect) && !s.inCtl {
+			// a thread is making this choice: end the execution from here and wait to be unwound
+			t := s.cur
+			s.finish()
+			t.parked = true
+			<-t.resume
+			raceHandoffIn()
+			panic(abortSentinel)
+		}
+		return 0
+	}
 	if kind == KOp || kind == KEnv || kind == KSelect {
 		s.fold(uint64(k) + 101)
 	}
 	return k
+}
+
+// Abandon may be called by the chooser from inside Choose: the execution ends at this choice point
+// (its continuation is known to be covered by an earlier execution).
+func (s *Sched) Abandon() {
+	s.abandoned = true
+	s.res.Abandoned = true
 }
 
 // CurKey is the state key of the choice point being answered (valid inside Chooser.Choose).
@@ -116,6 +135,7 @@ type Result struct {
 	Stuck     bool     // no thread enabled, no timer pending, main not finished
 	StuckInfo []string // pending ops of the parked threads when stuck
 	Capped    bool     // step horizon reached
+	Abandoned bool     // ended early by the chooser (state already covered)
 	Panic     string   // non-sentinel panic in a thread
 	Trace     []Step
 	EndClock  int64
@@ -124,25 +144,26 @@ type Result struct {
 
 // Sched is the state of one execution.
 type Sched struct {
-	cfg      Config
-	threads  []*Thread
-	cur      *Thread
-	chooser  Chooser
-	clock    int64
-	timers   []*Timer
-	timerSeq int
-	steps    int
-	aborting bool
-	inCtl    bool
-	endCh    chan struct{}
-	res      *Result
-	ended    bool
-	objSeq   int
-	quiesces int
-	events   []Event
-	curKey   uint64
-	objLast  map[any]uint64
-	global   uint64 // hash of the latest global event (timer firing, quiescence wake-up)
+	cfg       Config
+	threads   []*Thread
+	cur       *Thread
+	chooser   Chooser
+	clock     int64
+	timers    []*Timer
+	timerSeq  int
+	steps     int
+	aborting  bool
+	inCtl     bool
+	endCh     chan struct{}
+	res       *Result
+	ended     bool
+	objSeq    int
+	quiesces  int
+	events    []Event
+	curKey    uint64
+	abandoned bool
+	objLast   map[any]uint64
+	global    uint64 // hash of the latest global event (timer firing, quiescence wake-up)
 }
 
 // Event is an entry of the per-execution event log that shims and harness doubles append to; the
@@ -465,6 +486,9 @@ type ctlBlocked struct{ desc string }
 // caller is finishing). Returns nil when the execution is over (stuck or capped).
 func (s *Sched) pickNext(from *Thread) *Thread {
 	for {
+		if s.abandoned {
+			return nil
+		}
 		s.steps++
 		if s.steps > s.cfg.MaxSteps {
 			s.res.Capped = true
@@ -504,6 +528,9 @@ func (s *Sched) pickNext(from *Thread) *Thread {
 				k := 0
 				if len(qw) > 1 {
 					k = s.choose(KThread, len(qw), false, from)
+					if s.abandoned {
+						return nil
+					}
 				}
 				qw[k].waitQ = false
 				return qw[k]
@@ -527,6 +554,9 @@ func (s *Sched) pickNext(from *Thread) *Thread {
 		k := 0
 		if n > 1 {
 			k = s.choose(KThread, n, preemptive, from)
+			if s.abandoned {
+				return nil
+			}
 		}
 		if k == len(en) { // clock pseudo-thread
 			s.fireEarliest()
